@@ -44,11 +44,12 @@ def cases(tier, seed):
         for b in ([1024, 2048, 3072] if tier == 'quick' else [1024, 1984, 2048, 2112, 3008, 3072, 4096]):
             cs.append({'kind': 'rsa', 'bits': b, 'names': arr, 'render': ['text', 'json'][i % 2], 'with_ed': False})
     cas = [{'type': 'rsa', 'bits': b} for b in (1024, 2048, 3072, 4096, 8192)] + [{'type': 'ed25519'}] + [{'type': 'ecdsa', 'bits': b} for b in (256, 384, 521)]
+    cas += [{'type': 'ecdsa', 'bits': b, 'compressed': True} for b in ((256, 384, 521) if tier == 'thorough' else ((256, 384, 521)[seed % 3],))]   # RFC 5656: point compression MAY be used
     if tier == 'thorough':
         cas += [{'type': 'rsa', 'bits': b} for b in (1536, 1984, 2112, 2560, 3008, 3136, 6144)]
     hosts = [('rsa-cert', b) for b in ((1024, 2048, 3072, 4096) if tier == 'quick' else (1024, 1536, 2048, 2560, 3072, 4096, 8192))] + [('ed25519-cert', 256)]
     for i, ((ht, hb), ca) in enumerate(itertools.product(hosts, cas)):
-        if tier == 'quick' and i % 2 != seed % 2:
+        if tier == 'quick' and (i + i // len(cas)) % 2 != seed % 2:
             continue
         cs.append({'kind': 'cert', 'host': ht, 'bits': hb, 'ca': ca, 'render': ['text', 'json'][i % 2], 'var': CERT_VARIANTS[i % len(CERT_VARIANTS)]})
     for t in ('ed25519', 'ed448'):
@@ -75,6 +76,9 @@ def cases(tier, seed):
                 for rnd in (('text', 'json', 'verbose') if tier == 'thorough' else (['json', 'text', 'json', 'verbose'][i % 4],)):
                     i += 1
                     cs.append({'kind': 'certmix', 'certs': list(certs), 'plain': plain, 'render': rnd, 'plain_bits': [2048, 3072, 4096][i % 3], 'cert_bits': [3072, 4096, 2048][i % 3], 'certs_first': i % 2 == 0})
+    # SSH_MSG_DEBUG messages (allowed at any time) in front of every key-exchange reply: the key behind them is measured all the same
+    for i, (b, n) in enumerate([(1024, 2), (2048, 3), (3072, 1), (1536, 5)] if tier == 'quick' else [(b, n) for b in (1024, 1536, 2048, 2560, 3072, 4096) for n in (1, 2, 3, 5, 20)]):
+        cs.append({'kind': 'rsa', 'bits': b, 'names': ARRANGEMENTS[i % len(ARRANGEMENTS)], 'render': ['text', 'json'][i % 2], 'with_ed': i % 2 == 0, 'chatter': n})
     if tier == 'thorough':
         for b in list(range(2000, 2101, 8)) + list(range(3020, 3121, 8)) + [2047, 2049, 3071, 3073, 1023, 4095]:
             cs.append({'kind': 'rsa', 'bits': b, 'names': ['ssh-rsa'], 'render': 'text', 'with_ed': False, 'odd': True})
@@ -172,7 +176,7 @@ def run_rsa(c):
     def script(bits):
         hk = {n: {'type': 'rsa', 'bits': bits} for n in RSA_FAMILY}
         hk['ssh-ed25519'] = {'type': 'ed25519'}
-        return {'banner': 'SSH-2.0-OpenSSH_9.1', 'kex': audit.sym_kex(['curve25519-sha256'], keys, ['aes128-ctr'], ['hmac-sha2-256']), 'hostkeys': hk, 'gex': None}
+        return {'banner': 'SSH-2.0-OpenSSH_9.1', 'kex': audit.sym_kex(['curve25519-sha256'], keys, ['aes128-ctr'], ['hmac-sha2-256']), 'hostkeys': hk, 'gex': None, 'reply_debug': c.get('chatter', 0)}
     r, res, fps, p = observe(script(c['bits']), c['render'], names)
     rb, base, _f, _p = observe(script(4096), c['render'], names)
     if res is None or base is None:
